@@ -466,8 +466,14 @@ fn match_text(text: &str, pat: &[(usize, Pat)]) -> Result<(), (Option<usize>, St
                 pos += s.len();
             }
             Pat::NonAscii => {
+                // how bytes outside the character set are shown is free, but they do not vanish and do not turn into ASCII
+                let start = pos;
                 while pos < tb.len() && tb[pos] >= 0x80 {
                     pos += 1;
+                }
+                if pos == start {
+                    let got: String = text[pos..].chars().take(40).collect();
+                    return Err((Some(k), format!("arg {k} at byte {pos}: a run of bytes >= 0x80 of the string is not shown at all (next: {:?})", got)));
                 }
             }
             Pat::F32(_) | Pat::F64(_) => {
@@ -609,6 +615,10 @@ fn symbols() -> Vec<(Val, bool /*core*/)> {
         (BStr::lit(b"\x80"), false),
         (BStr::lit(b"a\xffb\0"), true),
         (BStr::lit(b"\xc3"), false), // truncated 2-byte sequence
+        // byte-order-mark look-alikes at the start (a decoder that sniffs for a BOM would switch encodings / drop them)
+        (BStr::lit(b"\xff\xfeab\0"), true),
+        (BStr::lit(b"\xfe\xffab"), false),
+        (BStr::lit(b"\xef\xbb\xbfhi\0"), true),
         (BStr::rep(b'x', LONG, b""), false),
         (BStr::rep(b'x', LONG - 1, b"\0"), false),
         (BStr::rep(b'y', 0xfffe, b""), false), // longest str the serde serializer can take (plus NUL = 0xffff)
@@ -1273,7 +1283,7 @@ impl Prop for C18 {
         Meta {
             id: "C18",
             level: "exploration",
-            rule: "every sequence of typed values up to the stated length over the stated value alphabet (bool, i8..i64, u8..u64 with 0/+-1/min/max, f32/f64 with +-0, extremes, subnormal, NaN, +-inf, UTF-8 / ASCII strings and raw data: empty, 1 char, NUL-terminated, double NUL, embedded NUL, CR/LF/TAB, non-UTF-8, 65000 / 65534 / 65535 / 65536 bytes) is encoded by the real encoders (payload_from_args in both byte orders; serde Serializer via to_payload/add_to_serializer and dlt_args! in native order), decoded by `for arg in &msg` and rendered by payload_as_text. Clauses: roundtrip (same count, type_info, raw bytes, byte order flag), text (independent matcher: decimal integers, true/false, float token that parses back to the value, lower-case hex for raw, one trailing NUL removed, CR/LF/TAB as blanks, runs of non-character-set bytes free), encode_refused / oversize_accepted (a value is refused iff it does not fit the 16 bit length), trunc_prefix (every truncation point of the clean payload decodes to a prefix of the original list), corrupt_prefix (every replacement of one type-info or length field of argument j by a boundary value / single bit flip / other TYLE / other type leaves the arguments before j intact), reads_outside (every returned slice lies inside msg.payload), panic. A case is non-trivial when it has at least one argument / one byte.".into(),
+            rule: "every sequence of typed values up to the stated length over the stated value alphabet (bool, i8..i64, u8..u64 with 0/+-1/min/max, f32/f64 with +-0, extremes, subnormal, NaN, +-inf, UTF-8 / ASCII strings and raw data: empty, 1 char, NUL-terminated, double NUL, embedded NUL, CR/LF/TAB, non-UTF-8, 65000 / 65534 / 65535 / 65536 bytes) is encoded by the real encoders (payload_from_args in both byte orders; serde Serializer via to_payload/add_to_serializer and dlt_args! in native order), decoded by `for arg in &msg` and rendered by payload_as_text. Clauses: roundtrip (same count, type_info, raw bytes, byte order flag), text (independent matcher: decimal integers, true/false, float token that parses back to the value, lower-case hex for raw, one trailing NUL removed, CR/LF/TAB as blanks, runs of bytes >= 0x80 shown as at least one non-ASCII character, otherwise free; incl. strings that start with byte-order-mark look-alikes), encode_refused / oversize_accepted (a value is refused iff it does not fit the 16 bit length), trunc_prefix (every truncation point of the clean payload decodes to a prefix of the original list), corrupt_prefix (every replacement of one type-info or length field of argument j by a boundary value / single bit flip / other TYLE / other type leaves the arguments before j intact), reads_outside (every returned slice lies inside msg.payload), panic. A case is non-trivial when it has at least one argument / one byte.".into(),
             assumptions: vec![
                 "value alphabet and sequence lengths as listed under coverage.families; sequences longer than the bound and values outside the alphabet are not explored".into(),
                 "the serde Serializer NUL-terminates str/char values (documented in its source): expected raw value = UTF-8 bytes + NUL; ASCII strings and raw data are passed through as given".into(),
